@@ -34,6 +34,7 @@ import (
 	"github.com/itchio/savior/seeksource"
 	"github.com/itchio/wharf/pwr"
 	"github.com/itchio/wharf/pwr/overlay"
+	"github.com/itchio/wharf/pwr/patcher"
 	"github.com/itchio/wharf/wire"
 	"github.com/itchio/wharf/wsync"
 	"google.golang.org/protobuf/encoding/protowire"
@@ -1094,9 +1095,87 @@ func (rn *c10Runner) one(unis []*c10Universe, path string) error {
 	return nil
 }
 
+// resumeTrunc: the applier RESUMED from a checkpoint on a stream that has been truncated in the meantime. Checkpoints
+// come from an uninterrupted always-save application of the valid stream (gob round-tripped); for each, a new
+// patcher is made on stream[:cut] and resumed. Cuts lie at or behind the checkpoint's own source offset: resuming
+// a seek source beyond its end is a crash INSIDE the dependency (savior/seeksource slices with a negative length)
+// before wharf gets to read anything, and is left out (DESIGN 13).
+func (rn *c10Runner) resumeTrunc(unis []*c10Universe) {
+	rng := rand.New(rand.NewSource(envSeed()*17 + 3))
+	for _, u := range unis {
+		for _, bn := range []string{"plain", "opt"} {
+			msgs := u.Plain
+			if bn == "opt" {
+				msgs = u.Opt
+			}
+			for _, framing := range []string{"none", "gzip", "brotli"} {
+				st, err := buildPatchStream(u, msgs, framing)
+				if err != nil {
+					panic("harness: " + err.Error())
+				}
+				// checkpoints of the valid stream
+				var cps [][]byte
+				work := filepath.Join(rn.tmp, "cp-"+u.Name+bn+framing)
+				sc := &saveConsumer{should: func() bool { return true }, save: func(c *patcher.Checkpoint) (patcher.AfterSaveAction, error) {
+					if b, err := gobCheckpoint(c); err == nil && len(cps) < 64 {
+						cps = append(cps, b)
+					}
+					return patcher.AfterSaveContinue, nil
+				}}
+				if r := realApplyPatch(st.Bytes, applyOpts{Bowl: "fresh", OldDir: u.OldDir, OutDir: filepath.Join(work, "out"), Consumer: sc}); r.Err != nil {
+					panic("harness: the valid stream does not apply: " + r.Err.Error())
+				}
+				os.RemoveAll(work)
+				// the section (everything after magic + header) starts where the decoder says
+				d := decodePatch(st.Bytes)
+				for ci, cb := range cps {
+					if ci%3 != 0 && ci != len(cps)-1 {
+						continue
+					}
+					cp0, err := ungobCheckpoint(cb)
+					if err != nil || cp0.MessageCheckpoint == nil || cp0.MessageCheckpoint.SourceCheckpoint == nil {
+						continue
+					}
+					lo := d.HeaderEnd + int(cp0.MessageCheckpoint.SourceCheckpoint.Offset)
+					hi := len(st.Bytes)
+					if framing == "none" {
+						hi = d.HeaderEnd + int(cp0.MessageCheckpoint.Offset) + 40
+						if hi > len(st.Bytes) {
+							hi = len(st.Bytes)
+						}
+					}
+					if lo >= hi {
+						continue
+					}
+					cuts := map[int]bool{lo: true, lo + 1: true, hi - 1: true, (lo + hi) / 2: true, lo + rng.Intn(hi-lo): true, lo + rng.Intn(hi-lo): true}
+					for cut := range cuts {
+						if cut < lo || cut >= len(st.Bytes) {
+							continue
+						}
+						if !rn.wanted(1) {
+							continue
+						}
+						line := c10Line{Src: "resume", Uni: u.Name, Cons: "resume", Variant: "fresh", Framing: framing, Base: bn, Msgs: msgs,
+							TSizes: u.TSizes, SSizes: u.SSizes, SPath: u.SPath, CutK: -1, How: "inside", CutOff: cut,
+							Desc: fmt.Sprintf("checkpoint %d of %d (reader offset %d, source offset %d), stream cut at byte %d of %d", ci, len(cps), cp0.MessageCheckpoint.Offset, cp0.MessageCheckpoint.SourceCheckpoint.Offset, cut, len(st.Bytes))}
+						stream, cpb := st.Bytes[:cut], cb
+						rn.run(line, func(work string) error {
+							cp, err := ungobCheckpoint(cpb)
+							if err != nil {
+								panic("harness: " + err.Error())
+							}
+							return realApplyPatch(stream, applyOpts{Bowl: "fresh", OldDir: u.OldDir, OutDir: filepath.Join(work, "out"), From: cp}).Err
+						})
+					}
+				}
+			}
+		}
+	}
+}
+
 func cmdC10(args []string) error {
 	fs := flag.NewFlagSet("c10", flag.ExitOnError)
-	mode := fs.String("mode", "gen", "replay | gen | trunc")
+	mode := fs.String("mode", "gen", "replay | gen | trunc | resume")
 	cases := fs.String("cases", "", "replay: TLC output with EDGE lines")
 	n := fs.Int("n", -1, "number of executions (-1: all)")
 	first := fs.Int("first", 0, "first execution")
@@ -1161,6 +1240,8 @@ func cmdC10(args []string) error {
 		}
 	case "trunc":
 		rn.trunc(unis, *dense)
+	case "resume":
+		rn.resumeTrunc(unis)
 	default:
 		return fmt.Errorf("unknown mode %s", *mode)
 	}
